@@ -18,6 +18,7 @@ import TboxModel.C08.CabSize
 import TboxModel.C08.PoolProofs
 import TboxModel.C08.FdProofs
 import TboxModel.C08.LtProofs
+import TboxModel.C08.FastProofs
 namespace Tbox.C08
 open Cab
 
@@ -529,6 +530,296 @@ theorem C08_lt_free_once (ops : List LtOp) :
         | true => exact absurd (hr.2.1.1 ha) hnt
         | false => have := hr.2.2 ha; have h1 := hr.1; omega
 
+
+/-! ## cabinet::Token (modules/base/cabinet_token.h)
+
+`Cab.alloc` writes the token it returns as the pair `⟨id, pos⟩`; in the code that pair goes through
+the class `Token`.  The theorems below are about the class as declared: two full `size_t` members. -/
+
+/-- **C08_tok_roundtrip.** A token gives back exactly the id and the position it was built from, for
+EVERY pair of `size_t` values (not only small positions): nothing is truncated, so `Token(id, pos)`
+is the pair `⟨id, pos⟩` the cabinet model uses, two tokens built from different pairs differ, and a
+token is null exactly when its id is 0. -/
+theorem C08_tok_roundtrip (id pos : Nat) (hi : id ≤ sizeMax) (hp : pos ≤ sizeMax) :
+    (Token.ctor id pos).id = id ∧ (Token.ctor id pos).pos = pos ∧ Token.ctor id pos = ⟨id, pos⟩ ∧
+    ((Token.ctor id pos).isNull = true ↔ id = 0) ∧
+    (∀ id' pos', id' ≤ sizeMax → pos' ≤ sizeMax → Token.ctor id pos = Token.ctor id' pos' → id = id' ∧ pos = pos') := by
+  have h := Token.ctor_roundtrip id pos hi hp
+  refine ⟨by rw [h], by rw [h], h, by rw [h]; simp [Token.isNull], ?_⟩
+  intro id' pos' hi' hp' e
+  rw [h, Token.ctor_roundtrip id' pos' hi' hp'] at e
+  cases e; exact ⟨rfl, rfl⟩
+
+/-- **C08_tok_null.** `Token()` and every token after `reset()` are the null token `(0, 0)`;
+`isNull()` is `id == 0` and `operator bool` is its negation. -/
+theorem C08_tok_null (t : Token) :
+    Token.dflt.isNull = true ∧ t.reset = Token.dflt ∧ (t.isNull = true ↔ t.id = 0) ∧ t.toBool = !t.isNull := by
+  refine ⟨rfl, rfl, by simp [Token.isNull], ?_⟩
+  simp [Token.toBool, Token.isNull, bne]
+
+/-- **C08_tok_order.** `==` is equality of both members; `<` is a strict total order (lexicographic
+on id, then position) compatible with it — what `std::set` / `std::map` keyed by tokens need — and the
+four derived operators are the usual ones. -/
+theorem C08_tok_order (a b c : Token) :
+    (Token.equal a b = true ↔ a = b) ∧ Token.ne a b = !Token.equal a b ∧
+    Token.less a a = false ∧ (Token.less a b = true → Token.less b c = true → Token.less a c = true) ∧
+    (Token.less a b = true → Token.less b a = false) ∧
+    (Token.less a b = true ∨ a = b ∨ Token.less b a = true) ∧
+    Token.le a b = !Token.less b a ∧ Token.gt a b = Token.less b a ∧ Token.ge a b = !Token.less a b := by
+  have hlt := Token.less_iff
+  have key : ∀ x y : Token, Token.less x y = false ↔ ¬ (x.id < y.id ∨ (x.id = y.id ∧ x.pos < y.pos)) := by
+    intro x y
+    rw [← hlt x y]; simp
+  have tri : Token.less a b = true ∨ a = b ∨ Token.less b a = true := by
+    rw [hlt, hlt]
+    by_cases e : a = b
+    · exact Or.inr (Or.inl e)
+    · have : a.id ≠ b.id ∨ a.pos ≠ b.pos := by
+        apply Classical.byContradiction; intro h
+        have h' : a.id = b.id ∧ a.pos = b.pos := by omega
+        exact e (Cab.token_ext _ _ h'.1 h'.2)
+      omega
+  refine ⟨Token.equal_iff a b, rfl, ?_, ?_, ?_, tri, ?_, ?_, rfl⟩
+  · rw [key]; omega
+  · rw [hlt, hlt, hlt]; omega
+  · rw [hlt, key]; omega
+  · -- le = less ∨ equal = ¬ (b < a)
+    cases h1 : Token.less b a with
+    | true =>
+        have := (hlt b a).1 h1
+        have h2 : Token.less a b = false := by rw [key]; omega
+        have h3 : Token.equal a b = false := by
+          cases h : Token.equal a b with
+          | false => rfl
+          | true => have := (Token.equal_iff a b).1 h; subst this; omega
+        simp [Token.le, h2, h3]
+    | false =>
+        have h1' := (key b a).1 h1
+        cases h2 : Token.less a b with
+        | true => simp [Token.le, h2]
+        | false =>
+            have h2' := (key a b).1 h2
+            have : a = b := Cab.token_ext _ _ (by omega) (by omega)
+            simp [Token.le, h2, (Token.equal_iff a b).2 this]
+  · cases h1 : Token.less b a with
+    | true =>
+        have := (hlt b a).1 h1
+        have h2 : Token.less a b = false := by rw [key]; omega
+        have h3 : Token.equal a b = false := by
+          cases h : Token.equal a b with
+          | false => rfl
+          | true => have := (Token.equal_iff a b).1 h; subst this; omega
+        simp [Token.gt, h2, h3]
+    | false =>
+        have h1' := (key b a).1 h1
+        cases h2 : Token.less a b with
+        | true => simp [Token.gt, h2]
+        | false =>
+            have h2' := (key a b).1 h2
+            have : a = b := Cab.token_ext _ _ (by omega) (by omega)
+            simp [Token.gt, (Token.equal_iff a b).2 this]
+
+/-- **C08_tok_hash.** `hash()` is `(id·256 + pos mod 256) mod 2^64`: equal tokens hash equally (the
+contract of `std::hash` for `unordered_map` keys), and for ids below 2^56 the hash determines the id
+and the low byte of the position. -/
+theorem C08_tok_hash (a b : Token) :
+    Token.hash a = (a.id * 256 + a.pos % 256) % Token.word ∧ Token.hash a < Token.word ∧
+    (Token.equal a b = true → Token.hash a = Token.hash b) ∧
+    (a.id < 2 ^ 56 → b.id < 2 ^ 56 → Token.hash a = Token.hash b → a.id = b.id ∧ a.pos % 256 = b.pos % 256) := by
+  refine ⟨Token.hash_value a, ?_, ?_, ?_⟩
+  · rw [Token.hash_value]; exact Nat.mod_lt _ (by decide)
+  · intro h; rw [(Token.equal_iff a b).1 h]
+  · have bound : ∀ x y : Nat, x < 72057594037927936 → y < 256 → x * 256 + y < Token.word := by
+      intro x y hx hy; unfold Token.word; omega
+    intro ha hb h
+    rw [Token.hash_value, Token.hash_value] at h
+    have h1 : a.pos % 256 < 256 := Nat.mod_lt _ (by decide)
+    have h2 : b.pos % 256 < 256 := Nat.mod_lt _ (by decide)
+    have e56 : (2 : Nat) ^ 56 = 72057594037927936 := by rfl
+    rw [e56] at ha hb
+    have ha' := bound _ _ ha h1
+    have hb' := bound _ _ hb h2
+    rw [Nat.mod_eq_of_lt ha', Nat.mod_eq_of_lt hb'] at h
+    omega
+
+/-! ## many live entries at once (the `bulk` ops of the harness), for every n -/
+
+/-- **C08_cab_bulk_alloc.** `n` allocations in a row into a cabinet without free cells (a new one,
+one after `clear()`, or one that never freed) whose id counter stays below 2^64: for EVERY `n` and every
+list of objects the i-th token returned is `(last_id_+1+i, cells+i)` — on an empty cabinet ids `1..n` at
+positions `0..n−1` — it is the value `Token(id, pos)` holds as long as the cell index fits `size_t`;
+after all `n` allocations every one of them resolves to its own object; ids strictly increase (tokens
+pairwise distinct); `size()` grew by `n`; and every token that pointed into the old cells resolves as before. -/
+theorem C08_cab_bulk_alloc (c : Cab) (objs : List Nat) (hf : c.firstFree = sizeMax)
+    (hw : c.lastId + objs.length ≤ sizeMax) :
+    let r := c.allocN objs
+    r.2.length = objs.length ∧
+    (∀ (i : Nat) (h : i < objs.length),
+        r.2[i]? = some ⟨c.lastId + 1 + i, c.cells.length + i⟩ ∧
+        r.1.lookup ⟨c.lastId + 1 + i, c.cells.length + i⟩ = some objs[i] ∧
+        (c.cells.length + i ≤ sizeMax →
+          Token.ctor (c.lastId + 1 + i) (c.cells.length + i) = ⟨c.lastId + 1 + i, c.cells.length + i⟩)) ∧
+    r.2.Pairwise (fun a b => a.id < b.id) ∧
+    r.1.size = c.size + objs.length ∧ r.1.lastId = c.lastId + objs.length ∧
+    r.1.firstFree = sizeMax ∧ r.1.wrapped = c.wrapped ∧
+    (∀ t : Token, t.pos < c.cells.length → r.1.lookup t = c.lookup t) := by
+  intro r
+  have hr : r = _ := allocN_closed c objs hf hw
+  rw [hr]
+  refine ⟨pushedToks_length _ _ _, ?_, pushedToks_pairwise _ _ _, rfl, rfl, hf, rfl, ?_⟩
+  · intro i h
+    refine ⟨pushedToks_get _ _ _ i h, ?_, fun hp => Token.ctor_roundtrip _ _ (by omega) hp⟩
+    rw [lookup_some]
+    refine ⟨by simp only; omega, ?_⟩
+    simp only
+    rw [List.getElem?_append_right (by omega)]
+    have : c.cells.length + i - c.cells.length = i := by omega
+    rw [this, pushedCells_get _ _ i h]
+  · intro t ht
+    unfold Cab.lookup
+    simp only
+    rw [List.getElem?_append_left ht]
+
+/-- **C08_cab_bulk_free.** … and after freeing an ARBITRARY subset of those `n` entries, in any order
+(`F` = the indices freed, without repetition): every `free` returns the entry's own object; the freed
+tokens resolve to nothing; every other one of the `n` still resolves to its own object; `size()` is
+`old size + n − |F|` (`count_` cannot underflow); tokens into the old cells are unaffected. -/
+theorem C08_cab_bulk_free (c : Cab) (objs : List Nat) (F : List Nat) (hf : c.firstFree = sizeMax)
+    (hw : c.lastId + objs.length ≤ sizeMax) (hnd : F.Nodup) (hb : ∀ i ∈ F, i < objs.length) :
+    let r := c.allocN objs
+    let tok : Nat → Token := fun i => ⟨c.lastId + 1 + i, c.cells.length + i⟩
+    let fr := r.1.freeN (F.map tok)
+    (∀ (i : Nat) (h : i < objs.length), fr.1.lookup (tok i) = if i ∈ F then none else some objs[i]) ∧
+    (∀ (j : Nat) (h : j < F.length), fr.2[j]? = some (objs[F[j]]'(hb _ (List.getElem_mem h)))) ∧
+    fr.1.size + F.length = c.size + objs.length ∧
+    (∀ t : Token, t.pos < c.cells.length → fr.1.lookup t = c.lookup t) := by
+  intro r tok fr
+  obtain ⟨_, hget, _, hsz, _, _, _, hold⟩ := C08_cab_bulk_alloc c objs hf hw
+  have tok_inj : ∀ i j, tok i = tok j → i = j := by
+    intro i j e
+    have := congrArg Token.id e
+    simp only [tok] at this; omega
+  have mem_iff : ∀ i, tok i ∈ F.map tok ↔ i ∈ F := by
+    intro i
+    simp only [List.mem_map]
+    constructor
+    · rintro ⟨j, hj, e⟩; rw [← tok_inj _ _ e]; exact hj
+    · intro h; exact ⟨i, h, rfl⟩
+  have hlen := nodup_bound F objs.length hnd hb
+  refine ⟨?_, ?_, ?_, ?_⟩
+  · intro i h
+    show (r.1.freeN (F.map tok)).1.lookup (tok i) = _
+    rw [lookup_freeN, (hget i h).2.1]
+    simp only [mem_iff]
+  · intro j h
+    have hj : (F.map tok)[j]? = some (tok F[j]) := by simp [h]
+    show (r.1.freeN (F.map tok)).2[j]? = _
+    rw [freeN_ret _ _ j _ hj]
+    have hnot : tok F[j] ∉ (F.map tok).take j := by
+      have hdrop : F.drop j = F[j] :: F.drop (j + 1) := List.drop_eq_getElem_cons h
+      have hnd' : (F.take j ++ F.drop j).Nodup := by rw [List.take_append_drop]; exact hnd
+      have hdisj := (List.nodup_append.1 hnd').2.2
+      have hFj : F[j] ∉ F.take j := fun hm => hdisj _ hm _ (by rw [hdrop]; exact List.mem_cons_self) rfl
+      rw [← List.map_take]
+      intro hm
+      obtain ⟨k, hk, e⟩ := List.mem_map.1 hm
+      rw [tok_inj _ _ e] at hk
+      exact hFj hk
+    simp only [hnot, if_false]
+    unfold Cab.at'
+    rw [(hget _ (hb _ (List.getElem_mem h))).2.1]; rfl
+  · show (r.1.freeN (F.map tok)).1.count + F.length = c.count + objs.length
+    have hc : r.1.count = c.count + objs.length := hsz
+    rw [count_freeN r.1 (F.map tok) ?_ ?_ (by rw [hc, List.length_map]; omega), hc, List.length_map]
+    · omega
+    · exact List.Pairwise.map tok (fun x y hxy e => hxy (tok_inj x y e)) hnd
+    · intro t ht
+      obtain ⟨i, hi, e⟩ := List.mem_map.1 ht
+      rw [← e, (hget i (hb i hi)).2.1]; rfl
+  · intro t ht
+    show (r.1.freeN (F.map tok)).1.lookup t = _
+    rw [lookup_freeN]
+    have : t ∉ F.map tok := by
+      intro hm
+      obtain ⟨i, _, e⟩ := List.mem_map.1 hm
+      have := congrArg Token.pos e
+      simp only [tok] at this; omega
+    simp only [this, if_false]
+    exact hold t ht
+
+/-- **C08_cab_array_refines.** The array implementation `CabA` the driver executes (and with it the
+answers to the `bulk` ops: 70 000 and more live entries) is the list model: every member function,
+every action list, and the bulk runs commute with `toCab`; returned tokens, pointers and lookups are
+equal. -/
+theorem C08_cab_array_refines (a : CabA) (xs : List CbAct) (x : CbAct) (t : Token) (os : List Nat)
+    (ts : List Token) (accT : Array Token) (accN : Array Nat) (c : Cab) :
+    (a.runActs xs).toCab = a.toCab.runActs xs ∧
+    ((a.act x).1.toCab = (a.toCab.act x).1 ∧ (a.act x).2 = (a.toCab.act x).2) ∧
+    ((a.free t).1.toCab = (a.toCab.free t).1 ∧ (a.free t).2 = (a.toCab.free t).2) ∧
+    ((a.update t 0).2 = (a.toCab.update t 0).2) ∧
+    a.lookup t = a.toCab.lookup t ∧ a.at' t = a.toCab.at' t ∧ a.size = a.toCab.size ∧
+    ((a.allocN os accT).1.toCab = (a.toCab.allocN os).1 ∧ (a.allocN os accT).2 = accT ++ (a.toCab.allocN os).2.toArray) ∧
+    ((a.freeN ts accN).1.toCab = (a.toCab.freeN ts).1 ∧ (a.freeN ts accN).2 = accN ++ (a.toCab.freeN ts).2.toArray) ∧
+    a.atN ts = a.toCab.atN ts ∧ (CabA.ofCab c).toCab = c :=
+  ⟨CabA.runActs_eq a xs, CabA.act_eq a x, CabA.free_eq a t, (CabA.update_eq a t 0).2, CabA.lookup_eq a t,
+   CabA.at_eq a t, rfl, CabA.allocN_eq a os accT, CabA.freeN_eq a ts accN, CabA.atN_eq a ts, CabA.toCab_ofCab c⟩
+
+/-- **C08_cab_jump.** The harness reaches ids near 2^64 by writing `last_id_` forward (op `cab jump`);
+the state it produces is consistent (every invariant behind the cabinet theorems holds: `run_inv` /
+`run_refines` start from any consistent state), lookups and `size()` are untouched, and a history
+continued from there that ends unwrapped keeps the invariant. -/
+theorem C08_cab_jump (ops post : List CabOp) (v : Nat) (t : Token)
+    (hw : (((({} : Cab).run ops).jump v).run post).wrapped = false)
+    (h1 : (({} : Cab).run ops).lastId ≤ v) (h2 : v ≤ sizeMax) :
+    let c := (({} : Cab).run ops).jump v
+    Inv c ∧ c.lookup t = (({} : Cab).run ops).lookup t ∧ c.size = (({} : Cab).run ops).size ∧ Inv (c.run post) := by
+  intro c
+  have hw1 : c.wrapped = false := by
+    cases hq : c.wrapped with
+    | false => rfl
+    | true => have := run_wrapped_mono c post hq; rw [hw] at this; cases this
+  have hi : Inv c := jump_inv _ v (run_inv {} ops init_inv hw1).1 h1 h2
+  exact ⟨hi, rfl, rfl, (run_inv c post hi hw).1⟩
+
+/-- **C08_pool_bulk.** Any number of objects alive at once, for every `n` and every retention limit: `n`
+allocations from a new pool hand out `n` pairwise different blocks (one constructor each); freeing them
+all (in allocation order) parks exactly the first `min n keep` — last parked first in the chain — and
+gives the others back, one destructor each; the statistics read `n / n / n / min n keep`; and the next
+`m ≤ min n keep` allocations are served from the parked chain only, head first, again pairwise different. -/
+theorem C08_pool_bulk (q : Pool) (keep n m : Nat) (hm : m ≤ min n keep) :
+    let p0 := q.renew keep
+    let r := p0.allocMany n
+    let p2 := r.1.freeMany r.2
+    let r3 := p2.allocMany m
+    r.2 = List.range' p0.nextBlk n ∧ r.2.Nodup ∧ r.1.ctor = p0.ctor + n ∧ r.1.dtor = p0.dtor ∧
+    r.1.stat.allocT = n ∧ r.1.stat.peakA = n ∧
+    p2.parked = (r.2.take keep).reverse ∧ p2.released = (r.2.drop keep).reverse ++ p0.released ∧
+    p2.freeNum = min n keep ∧ p2.parked.length = min n keep ∧
+    p2.ctor = p0.ctor + n ∧ p2.dtor = p0.dtor + n ∧
+    p2.stat = { allocT := n, freeT := n, peakA := n, peakF := min n keep } ∧
+    r3.2 = p2.parked.take m ∧ r3.2.Nodup ∧ (∀ b ∈ r3.2, b ∈ r.2 ∧ b ∉ p2.released.take (n - min n keep)) ∧
+    r3.1.nextBlk = p0.nextBlk + n := by
+  intro p0 r p2 r3
+  exact Pool.bulk_aux p0 keep n m hm rfl rfl rfl rfl r rfl p2 rfl r3 rfl
+
+/-- **C08_lt_dead_forever.** Once the tag object of a record has been destroyed, every watcher on that
+record reports "not alive" after every further history — the watchers that were there, and every copy,
+move, assignment or swap of them made AFTER the tag died; no later tag (a new `Detail` each) can revive
+it.  (A real `new Detail` may reuse the address of a record only after it was deleted, i.e. when no
+watcher points to it any more: `C08_lt_free_once`.) -/
+theorem C08_lt_dead_forever (pre post : List LtOp) (d w : Nat) :
+    let s1 := LtSys.init.run pre
+    let s2 := s1.run post
+    s1.Dead d → s2.Dead d ∧ (s2.ws[w]? = some (some d) → s2.isAlive w = false) := by
+  intro s1 s2 h
+  have h2 : s2.Dead d := LtSys.run_dead s1 post d h
+  refine ⟨h2, ?_⟩
+  intro hw
+  obtain ⟨det, hd, ha⟩ := h2
+  unfold LtSys.isAlive
+  rw [LtSys.wOf_eq s2 w _ hw]
+  simp [hd, ha]
+
 /-! ### non-vacuity -/
 
 example : (({} : Cab).run [.act (.alloc 1), .act (.alloc 2), .act (.free ⟨1, 0⟩), .act .clear, .act (.alloc 3)]).wrapped = false := by
@@ -565,5 +856,39 @@ example :
     s.isAlive 1 = false ∧ s.isNull 1 = false ∧ s.isNull 2 = true ∧
     s.details = [{ alive := false, cnt := 1, freed := false }] ∧
     (s.step (.wnew 1)).details = [{ alive := false, cnt := 0, freed := true }] := by decide
+
+-- tokens: values beyond 16 / 32 / 48 bits survive; the order and the hash on concrete tokens
+example : 281474976710657 ≤ sizeMax ∧ 65537 ≤ sizeMax ∧ Token.ctor 281474976710657 65537 = ⟨281474976710657, 65537⟩ ∧
+    Token.ctor sizeMax sizeMax = ⟨sizeMax, sizeMax⟩ ∧ (Token.ctor 0 7).isNull = true ∧
+    Token.less ⟨1, 65536⟩ ⟨1, 65537⟩ = true ∧ Token.less ⟨2, 0⟩ ⟨1, 65537⟩ = false ∧
+    Token.hash ⟨3, 258⟩ = 770 ∧ Token.hash ⟨sizeMax, 255⟩ = sizeMax := by decide
+
+-- bulk: hypotheses of C08_cab_bulk_alloc / C08_cab_bulk_free on a cabinet with history, and what they give
+example :
+    let c := ({} : Cab).run [.act (.alloc 1), .act (.alloc 2), .act .clear]
+    c.firstFree = sizeMax ∧ c.lastId + [5, 6, 7].length ≤ sizeMax ∧ [2, 0].Nodup ∧ (∀ i ∈ [2, 0], i < [5, 6, 7].length) ∧
+    (c.allocN [5, 6, 7]).2 = [⟨3, 0⟩, ⟨4, 1⟩, ⟨5, 2⟩] ∧
+    (((c.allocN [5, 6, 7]).1.freeN [⟨5, 2⟩, ⟨3, 0⟩]).2 = [7, 5]) ∧
+    ((c.allocN [5, 6, 7]).1.freeN [⟨5, 2⟩, ⟨3, 0⟩]).1.atN [⟨3, 0⟩, ⟨4, 1⟩, ⟨5, 2⟩] = [0, 6, 0] := by decide
+
+-- the array cabinet on a history with reuse
+example :
+    let a := (({} : CabA).allocN [5, 6, 7] #[]).1
+    ((a.free ⟨2, 1⟩).1.alloc 9).2 = some ⟨4, 1⟩ ∧ ((a.free ⟨2, 1⟩).1.alloc 9).1.toCab.cells = [⟨1, 5⟩, ⟨4, 9⟩, ⟨3, 7⟩] := by decide
+
+-- pool: 5 objects alive at once with retention limit 2, then 2 served from the chain
+example :
+    let p0 := ({} : Pool).renew 2
+    (2 : Nat) ≤ min 5 2 ∧ (p0.allocMany 5).2 = [0, 1, 2, 3, 4] ∧
+    ((p0.allocMany 5).1.freeMany [0, 1, 2, 3, 4]).parked = [1, 0] ∧
+    ((p0.allocMany 5).1.freeMany [0, 1, 2, 3, 4]).released = [4, 3, 2] ∧
+    (((p0.allocMany 5).1.freeMany [0, 1, 2, 3, 4]).allocMany 2).2 = [1, 0] := by decide
+
+-- a watcher copied after its tag died, then a new tag in the same slot: the copy stays dead
+example :
+    let s1 := LtSys.init.run [.tnew 0, .wtag 0 0, .tdel 0]
+    let s2 := s1.run [.wcopyCtor 1 0, .tnew 0, .wcopyAssign 2 1, .wreset 0]
+    s1.Dead 0 ∧ s2.ws[2]? = some (some 0) ∧ s2.isAlive 2 = false ∧ s2.isNull 2 = false := by
+  refine ⟨⟨_, rfl, rfl⟩, by decide, by decide, by decide⟩
 
 end Tbox.C08
